@@ -598,8 +598,10 @@ def run(tier, seed):
         n_e1 = len(p3) + len(p4)
     # E1b: every modifier around an explicit lambda of arity 2 / 3 whose body has SEVERAL consuming elements (state that only exists
     # while the wrapped function runs), and eager higher-order elements (sort, reduce) with impure bodies over lists with repeats
-    lam_bodies = {2: [(E("+"), E("d")), (E(":"), E("+"), E("-")), (E("$"), E("-")), (E("-"), E("!"), E("+"))],
-                  3: [(E("-"), E("-")), (E("+"), E("*")), (E("_"), E("$"), E("-"))], 1: [(E(":"), E("+")), (E("d"), E("!"), E("+"))]}
+    lam_bodies = {2: [(E("+"), E("d")), (E(":"), E("+"), E("-")), (E("$"), E("-")), (E("-"), E("!"), E("+")), (E("n"),), (E("+"), E("n"), E("L"), E("+"))],
+                  3: [(E("-"), E("-")), (E("+"), E("*")), (E("_"), E("$"), E("-")), (E("n"),)],
+                  1: [(E(":"), E("+")), (E("d"), E("!"), E("+")), (E("n"),), (E("n"), E("L"))],
+                  None: [(E("n"),), (E("n"), E("∑")), (E("+"), E("n"), E("L"), E("+"))]}   # the context value of a lambda is what it RECEIVED
     modlam = []
     for m_ in ("~", "&", "ß", "ƒ", "ɖ", "v"):
         for k_, bodies_ in lam_bodies.items():
@@ -616,6 +618,11 @@ def run(tier, seed):
               (N(0), E("£"), rep_list, ("sort", (E("_"), E("¥"), E("›"), E(":"), E("£"))), E("¥")),
               (rep_list, ("lam", 2, (E("…"), E("+"))), E("R")), (N(0), E("£"), rep_list, ("lam", 2, (E("+"), E("¥"), E("›"), E("£"))), E("R"), E("¥")),
               (E("?"), ("sort", (E(","), N(0)))), (E("?"), ("sort", (E("…"), E("N"))))]
+    # lambdas that read their context value, called by reduce / map / filter with a number of arguments that differs from the declared arity
+    for k_ in (None, 1, 2, 3):
+        for b_ in ((E("n"),), (E("n"), E("L")), (E("+"), E("n"), E("L"), E("+"))):
+            impure += [(rep_list, ("lam", k_, b_), E("R")), (rep_list, ("lam", k_, b_), E("M")), (N(3), ("lam", k_, b_), E("M")),
+                       (N(3), N(4), ("lam", k_, b_), E("†")), (rep_list, ("lam", k_, b_), E("F"))]
     explore.pmap(_e1_shard, [(c, list(INPUT_SETS), "E1b modifier x multi-element lambda / impure eager bodies")
                              for c in explore.chunks(modlam + impure, 32)], rep, seed)
     # E2
